@@ -12,12 +12,12 @@ import (
 
 // listAnchors: the lazy list machinery of package value.
 type listAnchors struct {
-	vp                    *packages.Package
-	listType              *types.TypeName
-	newFromIterable       *types.Func
-	newFromSizedIterable  *types.Func
-	missing               []string
-	consuming             map[*types.Func]bool // methods of *List that iterate the list
+	vp                   *packages.Package
+	listType             *types.TypeName
+	newFromIterable      *types.Func
+	newFromSizedIterable *types.Func
+	missing              []string
+	consuming            map[*types.Func]bool // methods of *List that iterate the list
 }
 
 func (c *Ctx) listAnchors() *listAnchors {
